@@ -226,10 +226,17 @@ class Outcome(object):
         return "%s(%s)" % (self.kind, str(self.value)[:120])
 
 
-def call(opname, version, transport, ids):
+def call(opname, version, transport, ids, client=None):
     table = dict(OPS, **OPS20)
     fn, expected, norm = table[opname]
-    c = make_client(version, transport)
+    if client is None:
+        c = make_client(version, transport)
+    else:
+        # a long-lived client switched to another version between operations
+        c = client
+        c.kmip_version = W.KV[version]
+        c.proxy.socket = transport
+        c.proxy.protocol = KMIPProtocol(transport)
     try:
         r = fn(c, ids)
     except pie_exc.KmipOperationFailure as e:
@@ -311,16 +318,18 @@ def judge(opname, version, outcome, resp_bytes, part, ctx, what):
                        "%s under KMIP %d.%d, %s: %s" % (opname, version[0], version[1], what, txt), ctx)
 
 
-def run_real(opname, version, part):
+def run_real(opname, version, part, client=None, history=None):
     w0, ids = base()
     w = w0.clone()
     try:
         W.CLOCK.now = W.T0 + 7
         log = []
         tr = Transport(real_responder(w, log))
-        out = call(opname, version, tr, ids)
+        out = call(opname, version, tr, ids, client)
         part.count('exchanges')
         ctx = {'op': opname, 'version': list(version), 'peer': 'real'}
+        if history is not None:
+            ctx['switched_client'] = [list(v) for v in history]
         if not log:
             part.counters.setdefault('_out', set()).add((opname, 'no-request', out.kind))
             if out.kind != 'exception':
@@ -328,6 +337,20 @@ def run_real(opname, version, part):
                     opname, out), ctx)
             return None
         frame, data = log[-1]
+        # the request announces the version the client was told to speak
+        try:
+            hdr = ttlv.find(ttlv.parse(frame), T.REQUEST_HEADER.value)
+            pv = ttlv.find(hdr, T.PROTOCOL_VERSION.value)
+            announced = (ttlv.find(pv, T.PROTOCOL_VERSION_MAJOR.value)[2],
+                         ttlv.find(pv, T.PROTOCOL_VERSION_MINOR.value)[2])
+        except Exception:   # noqa
+            announced = None
+        if announced != tuple(version):
+            part.violation("request-version|%s" % ('switched' if client is not None else opname),
+                           "%s: the client was set to KMIP %d.%d but its request announces %s%s" % (
+                               opname, version[0], version[1], announced,
+                               ' (same client object used before under %s)' % (history,) if history else ''),
+                           ctx)
         # every request the client emits is decodable by the server
         r = W.Resp(data)
         if r.items and r.items[0].reason == RR.INVALID_MESSAGE.value and r.items[0].operation is None:
@@ -460,7 +483,34 @@ def run_scripted(opname, version, real_data, part):
                                % (opname, cut, n, out), {'op': opname, 'version': list(version), 'cut': cut})
 
 
+SWITCH_ORDER = [(1, 2), (2, 0), (1, 4), (1, 0), (2, 0), (1, 1), (1, 3), (1, 2)]
+
+
+def run_switching(part):
+    """One long-lived client per operation, switched through SWITCH_ORDER: what it emits and reports
+    under a version may not depend on the versions it spoke before."""
+    table = dict(OPS, **OPS20)
+    for opname in table:
+        client = make_client(SWITCH_ORDER[0], Transport(lambda f: b''))
+        hist = []
+        for version in SWITCH_ORDER:
+            if opname in OPS20 and version != (2, 0):
+                hist.append(version)
+                client.kmip_version = W.KV[version]
+                continue
+            run_real(opname, version, part, client=client, history=list(hist))
+            part.count('switched_exchanges')
+            hist.append(version)
+    part.sample({'switching_order': [list(v) for v in SWITCH_ORDER]})
+
+
 def _worker(task):
+    if task == 'switching':
+        part = Part()
+        run_switching(part)
+        out = part.as_dict()
+        out['out'] = sorted(part.counters.pop('_out', set()), key=repr)
+        return out
     opname, versions, scripted = task
     part = Part()
     for version in versions:
@@ -483,6 +533,7 @@ def run(tier, seed):
     for n in names:
         tasks.append((n, W.VERSIONS, False))                       # (a) all versions
         tasks.append((n, W.VERSIONS, True))   # (b) scripted: every supported version
+    tasks.append('switching')
     outs = set()
     for part in pmap(_worker, tasks):
         outs.update(repr(o) for o in part.pop('out', []))
@@ -513,6 +564,10 @@ def run(tier, seed):
 def replay(doc):
     part = Part()
     v = tuple(doc['version'])
+    if doc.get('switched_client') is not None:
+        run_switching(part)
+        vio = [x for x in part.violations if x[2].get('op') == doc['op']]
+        return bool(vio), '\n'.join("%s: %s" % (k, t) for k, t, _ in vio[:20]) or 'no violation'
     data = run_real(doc['op'], v, part)
     if doc.get('peer') != 'real' and data is not None:
         run_scripted(doc['op'], v, data, part)
